@@ -219,12 +219,12 @@ Section De.
   Lemma dfail_inv n : inv n (dfail n).
   Proof. simpl. split; [|split]; auto using evs_in_nil. Qed.
 
-  Lemma dispatch_inv tg wf vs (fd: nat -> D) :
-    (forall v n, inv n (fd v n)) -> forall n, inv n (dispatch E tg wf vs fd n).
+  Lemma dispatch_inv tg wf tgr vs (fd: nat -> D) :
+    (forall v n, inv n (fd v n)) -> forall n, inv n (dispatch E tg wf tgr vs fd n).
   Proof.
     intros Hfd n. unfold dispatch. destruct wf.
     - destruct tg as [[t|]|]; try apply dfail_inv.
-      destruct (lookup_tag E vs t); [apply Hfd|apply dfail_inv].
+      destruct (lookup_tag E tgr vs t); [apply Hfd|apply dfail_inv].
     - apply dtry_inv. apply Forall_forall. intros d Hd.
       apply in_map_iff in Hd as [v [Hd _]]. subst d. intros n0. apply Hfd.
   Qed.
@@ -233,9 +233,12 @@ Section De.
     match w with WDict _ kvs => Forall (fun kx => dgood2 (snd kx)) kvs | _ => True end ->
     forall c n, inv n (call_dc_de E w c n).
   Proof.
-    intros IH c n. unfold call_dc_de. destruct (c_disc (cls E c)).
-    - apply dispatch_inv. intros v n0. apply plain_inv. exact IH.
+    intros IH c. unfold call_dc_de. generalize (S (length E)) as fuel. intros fuel. revert c.
+    induction fuel as [|f IHf]; intros c n; simpl.
     - apply plain_inv. exact IH.
+    - destruct (c_disc (cls E c)).
+      + apply dispatch_inv. intros v n0. apply IHf.
+      + apply plain_inv. exact IH.
   Qed.
 
   Lemma on_ty_inv w :
@@ -258,7 +261,8 @@ Section De.
       simpl. split; [|split]; auto using evs_in_nil, okres_nil.
     - rewrite unpack_TUnion. apply dtry_inv. apply Forall_forall. intros d Hd.
       apply in_map_iff in Hd as [c [Hd _]]. subst d. intros n0. apply call_dc_inv. exact IHd.
-    - rewrite unpack_TDisc. apply dispatch_inv. intros v n0. apply plain_inv. exact IHd.
+    - rewrite unpack_TDisc. apply dispatch_inv. intros v n0. apply call_dc_inv. exact IHd.
+    - rewrite unpack_TDiscU. apply dispatch_inv. intros v n0. apply call_dc_inv. exact IHd.
   Qed.
 
   Theorem unpack_inv : forall w, dgood2 w.
